@@ -664,12 +664,49 @@ def h_after_peer_drop(ctx, kinds):
              % (len(disp.out) - n0, refused), len(disp.out) == n0)]
 
 
-def h_login_wire(ctx, second):
+def h_send_in_close_window(ctx, kinds):
+    """the dispatcher has reported the close (the network layer is disconnected) but the detached DISCONNECTED event has not been delivered
+    yet: senders run in that window; then the event is delivered and the socket is connected again.  What the handshake writes first on the
+    new connection must be the first thing on the wire -- nothing encrypted for the dead session may have been left waiting to go out"""
+    from checks import c16
+    tr = Tracer()
+    st, insts, disp, iq, key = build(tr, False)
+    net, noise = insts[0], insts[2]
+    do_send("app", insts, iq, 1)
+    n_before = len(disp.out)
+    net.onDisconnected()
+    refused = 0
+    kinds = ctx.choice("senders_in_window", [kinds, kinds[:1], kinds[1:], ("app2", "app", "keepalive")])
+    for i, k in enumerate(kinds):
+        try:
+            do_send(k, insts, iq, 40 + i)
+        except Exception:
+            refused += 1
+    in_window = len(disp.out) - n_before
+    c16.run_loop(st)
+    net.connected, net.state = True, net.STATE_CONNECTED
+    n0 = len(disp.out)
+    hello = b"client-hello"
+    noise._stream.write_segment(hello)                 # what the handshake worker does first (consonance writes through the layer's stream)
+    new = b"".join(disp.out[n0:])
+    want = len(hello).to_bytes(3, "big") + hello
+    return [("nothing is written to a connection the dispatcher has reported closed (%d chunks)" % in_window, in_window == 0),
+            ("the first bytes on the new connection are the handshake's first frame, not a frame of the dead session (%d bytes written, %d expected, %d sends refused)"
+             % (len(new), len(want), refused), new == want)]
+
+
+def h_login_wire(ctx, second, edge=False):
     """the handshake thread's first write against the thread that starts it, and the first bytes of a later login on the same stack:
-    the real noise and segments layers (C16's lifecycle stack), the handshake worker writing its first message as soon as it is started"""
+    the real noise and segments layers (C16's lifecycle stack), the handshake worker writing its first message as soon as it is started.
+    edge: the profile's config carries edge routing info (its length 1..5 and the usual value) -- it goes out as a framed blob before the prologue"""
     from checks import c16
     prefix = ("connect-request", "connected") + (("peer-close", "connect-request", "connected") if second else ())
-    obs = c16.h_history(ctx, len(prefix), prefix, True)
+    if edge:
+        c16.EDGE_INFO = ctx.choice("edge_routing_info", [b"\x08\x05\x08\x02", b"\x08", b"\x08\x02\x08\x05\x10"])
+    try:
+        obs = c16.h_history(ctx, len(prefix), prefix, True)
+    finally:
+        c16.EDGE_INFO = None
     return [(l, o) for l, o in obs if "on the wire" in l or "nothing was ever written" in l]
 
 
@@ -706,7 +743,9 @@ def h_big_frames(ctx):
 def cases(tier):
     cs = [dict(name="after-peer-drop[app+keepalive]", fn=h_after_peer_drop, args=(("app", "keepalive"),)),
           dict(name="big-frames", fn=h_big_frames, keep_samples=8),
+          dict(name="send-in-close-window[app+keepalive]", fn=h_send_in_close_window, args=(("app", "keepalive"),)),
           dict(name="login-wire[first login]", fn=h_login_wire, args=(False,)), dict(name="login-wire[second login on the same stack]", fn=h_login_wire, args=(True,)),
+          dict(name="login-wire[first login, edge routing info configured]", fn=h_login_wire, args=(False, True)),
           dict(name="after-refused-send[app+keepalive]", fn=h_after_failure, args=(("app", "keepalive"),)),
           dict(name="races[app+app2,1 send]", fn=h_races, args=(("app", "app2"), 1), timeout_s=900, weight=20, keep_samples=64),
           dict(name="races[coder+coder2,1 send]", fn=h_races, args=(("coder", "coder2"), 1), timeout_s=900, weight=20, keep_samples=64),
